@@ -86,7 +86,32 @@ OPS = {c: ops_for(c) for c in CLASSES}          # core alphabet: exhaustive to l
 EXTRA = [["set", "sampling", "np64:4.0"], ["freq"], ["mutate"], ["mutate_set"],
          ["bad", "NFFT", 0], ["bad", "NFFT", -4], ["bad", "NFFT", 12.5], ["bad", "sides", "dummy"],
          ["conv", "twosided"], ["conv", "centerdc"], ["conv", "onesided"]]
-OPS_EXT = {c: OPS[c] + EXTRA for c in CLASSES}
+# appended later (the positions of the earlier entries are kept): an augmented assignment on the samples (getter, in-place
+# product on the object's own array, setter), a display call, a sampling frequency a few ppm away from the current one, and
+# re-assignments of an equal but *distinct* object (a string built at run time is not the interned literal)
+EXTRA2 = [["aug"], ["plot"], ["set", "sampling", 1.000004], ["reassign_eq", "sides"], ["reassign_eq", "sampling"]]
+
+
+def extra_for(cls):
+    return EXTRA + EXTRA2 + [["reassign_eq", a] for a in ("detrend", "window") if a in SPECS[cls]["attrs"]]
+
+
+OPS_EXT = {c: OPS[c] + extra_for(c) for c in CLASSES}
+
+
+def _equal_copy(v):
+    """an object equal to v that is not v (where the type allows one)"""
+    if isinstance(v, str):
+        return (v + " ")[:-1]
+    if isinstance(v, bool) or v is None:
+        return v
+    if isinstance(v, np.generic):
+        return type(v)(v.item())
+    if isinstance(v, float):
+        return float.fromhex(v.hex())
+    if isinstance(v, int):
+        return int(str(v))
+    return v
 
 
 def same(a, b, exact=False):
@@ -199,6 +224,31 @@ def run_history(cls, d0, hist):
                     raise HistFail("assignment-lost", i, op, "after assigning the caller's array scaled in place, data does not hold the new samples")
                 if computed:
                     changed_after = True
+            elif kind == "aug":
+                # an augmented assignment on the samples: getter, in-place product on the array it hands out, setter
+                p.data *= 2
+                ident = (ident[0], ident[1] + 1)
+                if not data_ok():
+                    raise HistFail("assignment-lost", i, op, "after p.data *= 2 data does not hold the doubled samples")
+                if computed:
+                    changed_after = True
+            elif kind == "plot":
+                # a display call: applies pending changes like a read and must leave the estimate as it is
+                import pylab
+                try:
+                    p.plot(norm=True)
+                finally:
+                    pylab.close("all")
+                computed = True
+            elif kind == "reassign_eq":
+                attr = op[1]
+                before = np.array(p.psd, copy=True)
+                computed = True
+                setattr(p, attr, _equal_copy(getattr(p, attr)))
+                after = p.psd
+                if not same(before, after, exact=True):
+                    raise HistFail("reassign-changed", i, op,
+                                   "re-assigning an equal (distinct) object to %s altered psd (%d -> %d values)" % (attr, len(before), len(np.asarray(after))))
             elif kind == "set":
                 attr, v = op[1], op[2]
                 if attr == "data":
@@ -300,9 +350,9 @@ def run_history(cls, d0, hist):
 
 def culprit(hist):
     for op in reversed(hist):
-        if op[0] in ("set", "reassign", "bad"):
+        if op[0] in ("set", "reassign", "bad", "reassign_eq"):
             return "%s:%s" % (op[0], op[1])
-        if op[0] in ("mutate", "mutate_set", "freq", "conv"):
+        if op[0] in ("mutate", "mutate_set", "freq", "conv", "aug", "plot"):
             return op[0]
     return "none"
 
@@ -444,6 +494,29 @@ def long_case(draw):
 @sub("C07.long", strategy=long_case(), quick=12000, thorough=60000, shards_quick=8,
      doc="Hypothesis: histories of 3..30 operations over the extended alphabet, same fresh-object oracle")
 def c07_long(ctx, case):
+    body_batch_or_single(ctx, case)
+
+
+# ---- an equal but distinct object re-assigned in every (attribute value, layout) state ---------
+def enum_eq(tier):
+    for cls in CLASSES:
+        attrs = [a for a in SPECS[cls]["attrs"] if a not in ("data", "scale_by_freq")]
+        for d0 in ("r12", "c12"):
+            for a in attrs:
+                vals = VALUES[a] if a != "ar_order" else ARO.get(cls, [2, 3])
+                for v in vals:
+                    for s in ("onesided", "twosided", "centerdc"):
+                        if a == "sides":
+                            yield {"cls": cls, "d0": d0, "hist": [["read"], ["set", "sides", v], ["reassign_eq", "sides"]]}
+                            break
+                        for mid in (["read"], ["call"], ["plot"]):
+                            yield {"cls": cls, "d0": d0, "hist": [["set", a, v], mid, ["set", "sides", s], ["reassign_eq", a]]}
+
+
+@sub("C07.eq", enum=enum_eq, exhaustive=True, shards_quick=4, shards_thorough=4,
+     doc="every class x attribute x pool value x layout: set the value, read / call / plot, choose the layout, then assign an "
+         "equal but distinct object (a string built at run time, a float / int re-created from its text): psd is unchanged")
+def c07_eq(ctx, case):
     body_batch_or_single(ctx, case)
 
 
